@@ -191,13 +191,32 @@ theorem item_ext {s s' : State} {a k : Nat} (h : Item s a k) (e : Ext s s') : It
 
 /-- at `a` the buffer holds (directly, or through its pointer) a stored name whose labels match
     the name `n` as names are compared in mode `m` (octet for octet unless `m` is `Standard`) -/
+def RootEndB (oct : Bytes) (a c : Nat) : Prop :=
+  ∃ pre, LabelsWF pre ∧ BytesAt oct a (pre.flatMap WName.encLabel ++ [0]) ∧ a + encLen pre + 1 ≤ c
+
+theorem rootEndB_frame {oct oct' : Bytes} {a c c' : Nat} (h : RootEndB oct a c)
+    (hpre : ∀ i, a ≤ i → i < c → oct'[i]? = oct[i]?) (hc : c ≤ c') : RootEndB oct' a c' := by
+  obtain ⟨pre, hwf, hb, hk⟩ := h
+  have hlen : (pre.flatMap WName.encLabel ++ [(0 : UInt8)]).length = encLen pre + 1 := by simp [encLen]
+  exact ⟨pre, hwf, bytesAt_frame hb (fun i h1 h2 => hpre i h1 (by rw [hlen] at h2; omega)), by omega⟩
+
+theorem rootEndB_of_wire {oct : Bytes} {a c : Nat} {n : WName} (hn : n.WF) (h : BytesAt oct a n.wire)
+    (hc : a + n.wire.length ≤ c) : RootEndB oct a c := by
+  refine ⟨n.labels, fun l hl => hn.1 l hl, by simpa [WName.wire] using h, ?_⟩
+  have : n.wire.length = encLen n.labels + 1 := by simp [WName.wire, encLen]
+  omega
+
+/-- … and when the name was written with compression `Disabled` it lies there literally: labels up
+    to the root label, no pointer -/
 def NameIs (s : State) (a : Nat) (m : CMode) (n : WName) : Prop :=
-  ∃ q ls, Hop s.octets s.cursor a q ∧ StoredAt s q ls ∧ labelsMatch (effMode m) n.labels ls = true
+  (∃ q ls, Hop s.octets s.cursor a q ∧ StoredAt s q ls ∧ labelsMatch (effMode m) n.labels ls = true) ∧
+  (m = .disabled → RootEndB s.octets a s.cursor)
 
 theorem nameIs_of_reads {s : State} {a : Nat} {m : CMode} {n : WName} {ls : List Label} (h : ReadsAt s a ls)
-    (hm : labelsMatch (effMode m) n.labels ls = true) : NameIs s a m n := by
+    (hm : labelsMatch (effMode m) n.labels ls = true) (hd : m = .disabled → RootEndB s.octets a s.cursor) :
+    NameIs s a m n := by
   obtain ⟨q, cs', hop, _, hn, _⟩ := h
-  exact ⟨q, ls, hop, nameAtC_forget hn, hm⟩
+  exact ⟨⟨q, ls, hop, nameAtC_forget hn, hm⟩, hd⟩
 
 /-- `NameIs` along any change that keeps the octets from `lo` up to the cursor, does not shrink the
     cursor and keeps the recorded label starts (all at or above `lo`) -/
@@ -205,9 +224,14 @@ theorem nameIs_frame {s s' : State} {a lo : Nat} {m : CMode} {n : WName} (h : Na
     (hg12 : ∀ g ∈ s.gLabels, lo ≤ g)
     (hpre : ∀ i, lo ≤ i → i < s.cursor → s'.octets[i]? = s.octets[i]?) (hc : s.cursor ≤ s'.cursor)
     (hg : ∀ g ∈ s.gLabels, g ∈ s'.gLabels) : NameIs s' a m n := by
-  obtain ⟨q, ls, hop, hst, hm⟩ := h
+  obtain ⟨⟨q, ls, hop, hst, hm⟩, hd⟩ := h
   have hq : q ∈ s.gLabels := (nameAt_start hst).1
-  refine ⟨q, ls, hop_frame hop hpre hc (hg12 q hq), ?_, hm⟩
+  have ha : lo ≤ a := by
+    have := hg12 q hq
+    have := (hop_le hop).1
+    omega
+  refine ⟨⟨q, ls, hop_frame hop hpre hc (hg12 q hq), ?_, hm⟩,
+    fun hm' => rootEndB_frame (hd hm') (fun i h1 h2 => hpre i (by omega) h2) hc⟩
   exact nameAt_frame (lo := lo) hst (fun x hx => hg x hx) (fun x hx => hg12 x hx) hpre hc
 
 theorem nameIs_ext {s s' : State} {a : Nat} {m : CMode} {n : WName} (h : NameIs s a m n) (e : Ext s s') :
@@ -278,11 +302,12 @@ theorem addRr_item (hint : Hint) (owner : WName) (ty cls ttl : Nat) (rd : List U
     | panic => cases h1
     | ok p =>
       simp only [Prod.mk.injEq, true_and] at h1
-      obtain ⟨hwB, hdenB, _, _, _, ⟨ls, hrd, hmtB⟩, hck⟩ := hs.ok p rfl
+      obtain ⟨hwB, hdenB, _, _, _, ⟨ls, hrd, hmtB⟩, hck, _, hdisB⟩ := hs.ok p rfl
       have hcurB : s.cursor ≤ sB.cursor := hf.cur
-      simp only at hck hrd hcurB hmtB hdenB
+      simp only at hck hrd hcurB hmtB hdenB hdisB
       have itB : Item sB s.cursor (sB.cursor - s.cursor) := item_of_reads hrd hck (by omega)
       have nmB : NameIs sB s.cursor s.mode owner := nameIs_of_reads hrd hmtB
+        (fun hm => rootEndB_of_wire hwf (hdisB hm).1 (by have := (hdisB hm).2; omega))
       -- the fixed fields
       unfold tryPushU16 at h2 h3
       unfold tryPushU32 at h4
@@ -392,7 +417,7 @@ theorem addRr_item (hint : Hint) (owner : WName) (ty cls ttl : Nat) (rd : List U
                   show (writeAt sH.octets s4.cursor _)[i]? = _
                   rw [writeAt_get_lt _ _ _ _ (by omega), preH _ (by omega), pre4 _ hi]
                 · -- the content, moved along: fixed fields, RDATA, RDLENGTH written back
-                  obtain ⟨q, ls', hopB, hstB, hmB⟩ := nmB
+                  obtain ⟨⟨q, ls', hopB, hstB, hmB⟩, hdB⟩ := nmB
                   -- a valid state where RDLENGTH is reserved
                   have hden1 : ∀ q, p = some q → Den { sB with gCtx := NameCtx.none } q owner :=
                     fun q hq => den_ext (by constructor <;> simp) (hdenB q hq)
@@ -438,7 +463,11 @@ theorem addRr_item (hint : Hint) (owner : WName) (ty cls ttl : Nat) (rd : List U
                     exact storedAt_ext hfr stG
                   have st' := storedAt_patch w4 (u16be ((sH.cursor - s4.cursor - 2) % 65536)) rfl hfr q ls' stH
                   rw [hs']
-                  refine ⟨q, ls', ?_, st', hmB⟩
+                  have hdis' : s.mode = .disabled →
+                      RootEndB (writeAt sH.octets s4.cursor (u16be ((sH.cursor - s4.cursor - 2) % 65536))) s.cursor
+                        sH.cursor := fun hm' => rootEndB_frame (hdB hm') (fun i h1 h2 => by
+                      rw [writeAt_get_lt _ _ _ _ (by omega), preH _ (by omega), pre4 _ h2]) (by omega)
+                  refine ⟨⟨q, ls', ?_, st', hmB⟩, hdis'⟩
                   -- the hop reads below the old cursor of the name
                   have hqa := (hop_le hopB).1
                   cases hopB with
@@ -476,7 +505,7 @@ theorem addRr_owner_decodes (hint : Hint) (owner : WName) (ty cls ttl : Nat) (rd
   simp only at hd
   have hs := writeHintedName_spec hint owner _ hwA hwf hhA
   rw [hwn] at hs
-  obtain ⟨hwB, _, _, _, _, _, hck⟩ := hs.ok p rfl
+  obtain ⟨hwB, _, _, _, _, _, hck, _⟩ := hs.ok p rfl
   simp only at hck
   have hcsB : sB.cursor ≤ sB.octets.size := Nat.le_trans hwB.cur_av hwB.av_size
   -- the chunk length
@@ -582,7 +611,7 @@ theorem addQuestionBody_round_trip (qn : WName) (qt qc : Nat) (s s' : State) (hw
   obtain ⟨w, k0, hd, hcase, hexact⟩ := writeUnhintedName_round_trip qn _ wA hwf p (by rw [hB])
   rw [hB] at hs hf hd
   simp only at hd
-  obtain ⟨hwB, _, _, _, _, _, hck⟩ := hs.ok p rfl
+  obtain ⟨hwB, _, _, _, _, _, hck, _⟩ := hs.ok p rfl
   have hcurB : s.cursor ≤ sB.cursor := hf.cur
   simp only at hck hcurB
   have hcsB : sB.cursor ≤ sB.octets.size := Nat.le_trans hwB.cur_av hwB.av_size
